@@ -21,6 +21,7 @@ from .arrays import bv, dim_term
 
 _REG = {}       # canonical key -> SumFn
 _T0 = [z3.Int(f"t?sigma{d}") for d in range(6)]
+_TC = z3.Int("t?sigma")
 _depth = [0]
 
 
@@ -88,16 +89,17 @@ def make(summand, n, hint="S"):
     finally:
         _depth[0] -= 1
     T = z3.simplify(T)
-    outer_ts = _T0[:d]
     params = _int_consts(T, exclude=[t0])
-    pvars = [z3.Int(f"p?sigma{d}_{k}") for k in range(len(params))]
-    canon = z3.substitute(T, *list(zip(params, pvars))) if params else T
-    key = (d, canon.sexpr())
+    pvars = [z3.Int(f"p?sigma_{k}") for k in range(len(params))]
+    # canonical text: parameters by order of first occurrence, own bound variable renamed to a depth-independent
+    # name (nested sums occur in T only through their function symbols, so there is nothing to capture)
+    canon = z3.substitute(T, *(list(zip(params, pvars)) + [(t0, _TC)]))
+    key = canon.sexpr()
     sf = _REG.get(key)
     if sf is None:
         name = f"{hint}_{len(_REG)}"
         fn = z3.Function(name, *([z3.IntSort()] * (len(params) + 1) + [z3.RealSort()]))
-        sf = SumFn(key, fn, len(params), canon, pvars, t0)
+        sf = SumFn(key, fn, len(params), canon, pvars, _TC)
         _REG[key] = sf
     nt = to_term(n)
     return Sum(sf, params, nt)
@@ -122,13 +124,26 @@ def define_zero(ctx, s: Sum):
 
 # -- lemma instances (each schema is proved in prove_schemas) --------------------------------------------------
 
-def remove_one(ctx, f, n, k, hint="S"):
-    """0<=k<n  ->  Σ_{t<n} [t != k] f(t)  =  Σ_{t<n} f(t) - f(k).   Returns (S_excl, S_full)."""
+def _gen(vars_, body, patterns=None):
+    """generalise a lemma instance over outer (bound) variables: sound because every schema is proved for an
+    arbitrary summand, which may depend on any parameters"""
+    if not vars_:
+        return body
+    if patterns:
+        return z3.ForAll(list(vars_), body, patterns=patterns)
+    return z3.ForAll(list(vars_), body)
+
+
+def remove_one(ctx, f, n, k, hint="S", forall=()):
+    """0<=k<n  ->  Σ_{t<n} [t != k] f(t)  =  Σ_{t<n} f(t) - f(k).   Returns (S_excl, S_full).
+    forall: outer z3 Int variables occurring in f/k over which the instance is generalised."""
     kt, nt = to_term(k), to_term(n)
     full = make(f, nt, hint)
     excl = make(lambda t: z3.If(t == kt, z3.RealVal(0), to_real(to_term(f(t)))), nt, hint + "x")
-    ctx.assume(z3.Implies(z3.And(kt >= 0, kt < nt), excl.t == full.t - to_real(to_term(f(kt)))), "lemma:remove_one")
-    ctx.assume(z3.Implies(z3.Or(kt < 0, kt >= nt), excl.t == full.t), "lemma:remove_one")
+    pats = [excl.t] if forall else None
+    ctx.assume(_gen(forall, z3.Implies(z3.And(kt >= 0, kt < nt), excl.t == full.t - to_real(to_term(f(kt)))), pats),
+               "lemma:remove_one")
+    ctx.assume(_gen(forall, z3.Implies(z3.Or(kt < 0, kt >= nt), excl.t == full.t), pats), "lemma:remove_one")
     return excl, full
 
 
